@@ -41,6 +41,9 @@ Load(r) ==
     bijection    |-> \A c \in Rng(r.configs) : c.err = "" => TableBijection(c.table),
     decode_after_load |-> \A c \in Rng(r.configs) : c.err = "" =>
                              \A rk \in Rng(c.ranks) : rk.names = rk.filenames /\ rk.cats = rk.filecats,
+    \* history on one Trace: the first rank parsed, then a rank with a larger vocabulary parsed alone: ids already assigned stay, the rows of
+    \* the first rank still decode to the same strings (AppendOnlyStep of the model, observed on the real table)
+    ids_stable_in_history |-> \A c \in Rng(r.configs) : c.err = "" => c.growOk,
     frames_independent  |-> \A c, d \in Rng(r.configs) : (c.err = "" /\ d.err = "") => c.frames = d.frames,
     results_independent |-> \A c, d \in Rng(r.configs) : (c.err = "" /\ d.err = "") => c.outputs = d.outputs ]
 
